@@ -856,7 +856,19 @@ def r10_builtin_lattice(repo):
             if c.name.endswith(("Factory", "Builtin")):
                 continue
             decl = []
-            for m in c.methods.values():
+            from ..irwrites import _ctor_helper
+            # a constructor body split into a private helper (`self._init_supertypes()`, possibly inherited): what the
+            # helper declares belongs to the classes whose constructors call it, not to the class that defines it
+            own = [m for m in c.methods.values() if not _ctor_helper(m)]
+            for m in list(own):
+                if m.name != "__init__":
+                    continue
+                for k in calls_in(m.node):
+                    if isinstance(k.func, ast.Attribute) and isinstance(k.func.value, ast.Name) and k.func.value.id == "self":
+                        h = c.lookup(k.func.attr)
+                        if h is not None and _ctor_helper(h) and h not in own:
+                            own.append(h)
+            for m in own:
                 for k in calls_in(m.node):
                     if isinstance(k.func, ast.Attribute) and k.func.attr in ("append", "extend", "insert") and \
                             "supertypes" in src(k.func.value):
